@@ -23,7 +23,10 @@ def canon_float(f):
 
 
 def canon_time(x):
-    ts = pd.Timestamp(x)
+    try:
+        ts = pd.Timestamp(x)
+    except Exception:        # noqa  outside what pandas can represent (np.datetime64 of huge years)
+        return "np:" + str(x)
     if ts is pd.NaT:
         return "NaT"
     try:
